@@ -117,11 +117,16 @@ Definition ocode (n : nat) : op :=
   | 0 => OTryLock | 1 => OTryRLock | 2 => OUnlock | 3 => OCanLock | 4 => OCanRLock | 5 => OGuardState | _ => OMutexState
   end.
 (* a case: list of (guard, opcode) with the observed result codes; 99 = panic *)
-Definition run_codes (ops : list (nat * nat)) : list nat :=
-  match run init_world (map (fun p => (fst p, ocode (snd p))) ops) with
-  | Some (rs, _) => map rcode rs
-  | None => [99]
+Fixpoint run_codes_from (w : world) (ops : list (nat * nat)) : list nat :=
+  match ops with
+  | [] => []
+  | (g, o) :: rest =>
+    match step w g (ocode o) with
+    | None => [99]           (* the harness stops a sequence at the first panic *)
+    | Some (r, w') => rcode r :: run_codes_from w' rest
+    end
   end.
+Definition run_codes (ops : list (nat * nat)) : list nat := run_codes_from init_world ops.
 Definition mismatches (cases : list (list (nat * nat) * list nat)) : list nat :=
   let fix go (i : nat) (cs : list (list (nat * nat) * list nat)) : list nat :=
     match cs with
